@@ -453,6 +453,61 @@ func c16(c *Ctx) {
 				"the delegate is published to lock-free readers before the placeholders have theirs ("+early+"): a concurrent call that takes the fast path hands a not yet delegated instrument or callback to the SDK, which rejects or loses it")
 		}
 	}()
+	// a walk that advances through a look-ahead variable (for e := l.Front(); e != nil; e = n { …; n = e.Next(); l.Remove(e) })
+	// refreshes that variable in every iteration: a path to the post statement that skips the refresh re-visits the same element
+	// for ever (SetMeterProvider never returns, with the provider's and the meter's mutexes held) or skips the rest of the list
+	for _, f := range sortedFuncs(gx.Funcs) {
+		if f.Body() == nil {
+			continue
+		}
+		g := gx.FG(f)
+		inspectNoLit(f.Body(), func(nd ast.Node) bool {
+			fs, ok := nd.(*ast.ForStmt)
+			if !ok || fs.Post == nil {
+				return true
+			}
+			post, ok := fs.Post.(*ast.AssignStmt)
+			if !ok || len(post.Lhs) != 1 || len(post.Rhs) != 1 {
+				return true
+			}
+			ahead, isV := objOf(info, post.Rhs[0]).(*types.Var)
+			if !isV || ahead.IsField() || definedIn(info, fs.Body, ahead) {
+				return true
+			}
+			refresh := toSet(g.Match(func(n ast.Node) bool {
+				as, ok := n.(*ast.AssignStmt)
+				if !ok || !containsNoLit(fs.Body, as) {
+					return false
+				}
+				for _, l := range as.Lhs {
+					if sameVar(info, l, ahead) {
+						return true
+					}
+				}
+				return false
+			}))
+			var body *GNode
+			for b, h := range g.head {
+				if b.Kind.String() == "ForBody" && b.Stmt == ast.Stmt(fs) {
+					body = h
+				}
+			}
+			if body == nil {
+				return true
+			}
+			seen, par := g.Reach([]*GNode{body}, func(y *GNode) bool { return refresh[y] }, nil)
+			bad := ""
+			for y := range seen {
+				if y.Blk != nil && y.Blk.Stmt == ast.Stmt(fs) && y.Blk.Kind.String() == "ForPost" {
+					bad = g.pathLines(par, y)
+				}
+			}
+			c.Check(bad == "" && len(refresh) > 0, "R4", "global|"+f.Name+"|the look-ahead "+ahead.Name()+" of the list walk is refreshed in every iteration", at(gx.M, fs.Pos()), "every path to the post statement passes "+ahead.Name()+" = …",
+				"an iteration can reach `"+exprStr(post.Lhs[0])+" = "+ahead.Name()+"` without having refreshed "+ahead.Name()+" ("+bad+"): the walk re-visits the same element for ever, or jumps over the remaining ones — callbacks registered before the installation are never registered with the SDK, or SetMeterProvider never returns")
+			return true
+		})
+	}
+
 	// R5 no panic while installing: atomic.Value.Store(nil) panics, and it panics inside the once-only installation
 	c.Rule("R5", "E3 dominance (nil-guard)", "every value stored into an atomic.Value of the global package that comes from a call which also returns an error (the delegate's constructor) is stored only after that error was found nil or the value found non-nil: Store(nil) panics inside the sync.Once of Set*Provider, which leaves every later placeholder unconnected for good", 14)
 	{
